@@ -4,9 +4,11 @@ import gen, streams, grammar, oracles
 from common import *
 import sqlparse
 
-RULE = ('texts: corpus, grammar scripts, g2/g3 junk (no lone surrogates) x every listed encoding able to encode the text x {str, bytes+encoding, UTF-8 bytes, stream} '
+RULE = ('texts: corpus, grammar scripts, g2/g3 junk (no lone surrogates) x every listed encoding able to encode the text x {str, bytes+encoding, UTF-8 bytes, stream, stream handed over at a non-zero position, unseekable stream} '
         'x {parse, parsestream, split, format}; non-UTF-8 byte strings (random bytes and Latin-1 encoded text with backslashes) without encoding vs Latin-1 decoding; '
-        'CLI runs (file/stdin x stdout/-o x encodings x flag combinations) vs format(); non-trivial = distinct (text, form) with non-ASCII characters or several statements')
+        'CLI runs (file/stdin x stdout/-o x encodings x flag combinations) vs format(); long texts across every usual read-block size (stream form must be read completely); '
+        'statement-edge texts (leading/trailing comments, empty statements) for parse = parsestream; byte strings that are nearly UTF-8 or start with a signature of another encoding; '
+        'every CLI option x every value of the option table x channel on feature-rich texts incl. CR/CRLF line ends; non-trivial = distinct (text, form) with non-ASCII characters or several statements')
 ASSUMPTIONS = ['codec round trip decode(enc, encode(enc, s)) = s is CPython behaviour (sampled by S-NORM)', 'argparse semantics (type=bool etc.) are taken from the real runs']
 PARTIAL = ['CLI relation is a relation between two runs of the real code (S-CLI); only the flag→option table and input normalisation are modelled']
 NEEDS_DRIVER = False
@@ -20,7 +22,17 @@ def canon_parse(stmts):
 def results(x, encoding=None):
     """parse / parsestream / split / format of one input form"""
     out = {}
-    mk = (lambda: x) if not isinstance(x, io.StringIO) else (lambda: io.StringIO(x.getvalue()))
+    if callable(x):
+        mk = x                          # a factory of fresh stream objects
+    elif isinstance(x, io.StringIO):
+        pos = x.tell()                  # a stream is the text from its CURRENT position on
+
+        def mk():
+            st = io.StringIO(x.getvalue())
+            st.seek(pos)
+            return st
+    else:
+        mk = lambda: x
     for name, f in (('parse', lambda v: canon_parse(sqlparse.parse(v, encoding))),
                     ('parsestream', lambda v: canon_parse(list(sqlparse.parsestream(v, encoding)))),
                     ('split', lambda v: sqlparse.split(v, encoding)),
@@ -32,12 +44,46 @@ def results(x, encoding=None):
     return out
 
 
+class OneShotStream(io.TextIOBase):
+    """a text stream like a pipe or socket file: read() only, no seeking, no getvalue"""
+
+    def __init__(self, text):
+        self._text, self._done = text, False
+
+    def readable(self):
+        return True
+
+    def seekable(self):
+        return False
+
+    def read(self, size=-1):
+        if self._done:
+            return ''
+        if size is None or size < 0:
+            self._done = True
+            return self._text
+        out, self._text = self._text[:size], self._text[size:]
+        return out
+
+    def readline(self, size=-1):
+        i = self._text.find('\n')
+        k = len(self._text) if i < 0 else i + 1
+        out, self._text = self._text[:k], self._text[k:]
+        return out
+
+
 def oracle_forms(ctx, s):
     base = results(s)
     ctx.evaluations += 1
     if base['parse'] != base['parsestream']:
         ctx.fail('parsestream differs from parse', s, observed=str(base['parsestream'])[:200], required=str(base['parse'])[:200])
     forms = [('stream', io.StringIO(s), None)]
+    # a stream that was partly consumed by the caller, and a stream that cannot seek (pipe-like)
+    header = ['-- dialect: x\n', 'x', ';\n', 'select 0;\n'][len(s) % 4]
+    st = io.StringIO(header + s)
+    st.read(len(header))
+    forms.append(('stream-positioned', st, None))
+    forms.append(('stream-unseekable', lambda: OneShotStream(s), None))
     for enc in ENCODINGS:
         try:
             b = s.encode(enc)
@@ -103,7 +149,7 @@ def flags_to_opts(flags):
     return o
 
 
-def oracle_cli(ctx, tmp, s, enc, flags, use_stdin, use_outfile, inplace=False):
+def oracle_cli(ctx, tmp, s, enc, flags, use_stdin, use_outfile, inplace=False, opts=None, io_encoding=None):
     try:
         data = s.encode(enc)
         if data.decode(enc) != s:
@@ -123,12 +169,12 @@ def oracle_cli(ctx, tmp, s, enc, flags, use_stdin, use_outfile, inplace=False):
                 os.unlink(outp)
             os.symlink(inp, outp)
     args = [PY, '-m', 'sqlparse'] + (['-'] if use_stdin else [inp]) + flags + ['--encoding', enc] + (['-o', outp] if use_outfile else [])
-    env = dict(os.environ, PYTHONIOENCODING=enc, PYTHONPATH=REPO)
+    env = dict(os.environ, PYTHONIOENCODING=io_encoding or enc, PYTHONPATH=REPO)
     p = subprocess.run(args, input=data if use_stdin else None, stdout=subprocess.PIPE, stderr=subprocess.PIPE, env=env, cwd=tmp, timeout=60)
     # what the CLI reads: text-mode decoding (universal newlines)
     text = io.TextIOWrapper(io.BytesIO(data), encoding=enc).read()
     try:
-        want = sqlparse.format(text, **flags_to_opts(flags))
+        want = sqlparse.format(text, **(opts if opts is not None else flags_to_opts(flags)))
     except Exception as e:
         want = None
     ctx.evaluations += 1
@@ -137,7 +183,8 @@ def oracle_cli(ctx, tmp, s, enc, flags, use_stdin, use_outfile, inplace=False):
     if want is None:
         return
     if p.returncode != 0:
-        ctx.fail('sqlformat exited with status %d' % p.returncode, s, observed=p.stderr.decode('utf-8', 'replace')[-300:], required='status 0', flags=flags, encoding=enc)
+        ctx.fail('sqlformat exited with status %d' % p.returncode, s, observed=p.stderr.decode('utf-8', 'replace')[-300:], required='status 0', flags=flags, encoding=enc, io_encoding=io_encoding,
+                 channel=('stdin' if use_stdin else 'file') + '->' + (('inplace:%s' % inplace if inplace else 'outfile') if use_outfile else 'stdout'))
         return
     if use_outfile:
         got = open(outp, 'rb').read().decode(enc)
@@ -154,8 +201,118 @@ def oracle_cli(ctx, tmp, s, enc, flags, use_stdin, use_outfile, inplace=False):
             ctx.count('cli:stdout-codec-artefact')
             return
     if got != want:
-        ctx.fail('sqlformat output differs from format()', s, observed=got[:300], required=want[:300], flags=flags, encoding=enc,
+        ctx.fail('sqlformat output differs from format()', s, observed=got[:300], required=want[:300], flags=flags, encoding=enc, io_encoding=io_encoding,
                  channel=('stdin' if use_stdin else 'file') + '->' + (('inplace:%s' % inplace if inplace else 'outfile') if use_outfile else 'stdout'))
+
+
+# --- long texts: every usual read-block size is crossed (a front end that reads a stream or file block-wise must still see the whole text) ------------
+BLOCK_SIZES_QUICK = [4096, 8192, 65536]
+BLOCK_SIZES_THOROUGH = [1 << 20]
+
+
+def long_texts(ctx):
+    out = []
+    for n in BLOCK_SIZES_QUICK + ([] if ctx.quick() else BLOCK_SIZES_THOROUGH):
+        # few tokens (cheap to group) but more characters than the block: the border falls inside a comment / a literal / plain statements
+        out.append('select 1; /* ' + 'c' * n + ' */ select 2; select 3')
+        out.append("select '" + 'é' * n + "' from t; select 2")
+    out.append('select a, b from t where x = 1;\n' * (8200 // 32 + 1))       # token-dense, longer than the smallest block
+    return out
+
+
+# --- statement edges: parse = tuple(parsestream) also for degenerate first/last statements -----------------------------------------------------
+EDGE_HEADS = ['', ' ', '\n', '-- c\n', '/* c */', '/* c */ ', ';', '; ', '-- c\n;', '﻿']
+EDGE_BODIES = ['select 1', 'select 1;', 'select 1; select 2', 'select 1;select 2;', 'begin; x; end;', '']
+EDGE_TAILS = ['', ' ', '\n', ';', ';;', '; ;', ' -- c', ' -- c\n', '\n-- c', '\n-- c\n', '; -- c', ';\n-- c\n', '; /* c */', ';\n/* c */\n', '; /* c */ -- d\n',
+              ';\n\n-- c\n-- d\n', '; -- c\n;', ';\n/* c */;', ';\n#x\n', ';\n# c\n', '; --+ h\n', '; /*+ h */', ';\t', ';\r\n-- c\r\n', ';\r-- c\r']
+
+
+def edge_texts():
+    return list(dict.fromkeys(h + b + t for h in EDGE_HEADS for b in EDGE_BODIES for t in EDGE_TAILS))
+
+
+def oracle_parse_stream(ctx, s):
+    """parse and parsestream on the str form only (cheap): the same statements"""
+    try:
+        a = canon_parse(sqlparse.parse(s))
+    except Exception as e:
+        a = 'raised ' + type(e).__name__
+    try:
+        b = canon_parse(list(sqlparse.parsestream(s)))
+    except Exception as e:
+        b = 'raised ' + type(e).__name__
+    ctx.evaluations += 1
+    ctx.count('edge_text')
+    ctx.nontrivial.add((s, 'edge'))
+    if a != b:
+        ctx.fail('parsestream differs from parse', s, observed=str(b)[:200], required=str(a)[:200])
+        return False
+    return True
+
+
+# --- byte strings that are nearly UTF-8, or start with the signature of another encoding: without an encoding argument they are Latin-1 -----------
+NEAR_UTF8 = [b'\xed\xa0\x80', b'\xed\xb0\x80', b'\xed\xa0\xbd\xed\xb8\x80', b'\xc0\x80', b'\xc1\xbf', b'\xe0\x80\x80', b'\xe0\x9f\xbf', b'\xf0\x80\x80\x80', b'\xf0\x8f\xbf\xbf',
+             b'\xf4\x90\x80\x80', b'\xf5\x80\x80\x80', b'\xf8\x88\x80\x80\x80', b'\xfc\x84\x80\x80\x80\x80', b'\x80', b'\xbf', b'\xc3', b'\xe2\x82', b'\xf0\x9f\x98', b'\xc3\x28',
+             b'\xe2\x28\xa1', b'\xfe', b'\xff', b'\xc3\xa9\xe9', b'\xe9\xc3\xa9']
+SIGNATURES = [b'\xff\xfe', b'\xfe\xff', b'\xff\xfe\x00\x00', b'\x00\x00\xfe\xff', b'\xef\xbb\xbf\xff', b'\xef\xbb', b'\x2b\x2f\x76\x38\xff', b'\x0e\xfe\xff', b'\xfb\xee\x28',
+              b'\xdd\x73\x66\x73', b'\x84\x31\x95\x33', b'\xf7\x64\x4c']
+
+
+def near_utf8_bytes():
+    out = []
+    for x in NEAR_UTF8:
+        for body in (b"select '%s' from t; select 2", b'%sselect 1', b'select 1 -- %s', b'select "%s\\n" , 1;x'):
+            out.append(body % x)
+    for sig in SIGNATURES:
+        for body in (b'select 1', b's\x00e\x00l\x00e\x00c\x00t\x00 \x001\x00', b'\x00s\x00e\x00l\x00e\x00c\x00t\x00 \x001', b'select 1; select 2\n', b''):
+            out.append(sig + body)
+    return out
+
+
+# --- the CLI option table: every option, every value -------------------------------------------------------------------------------------------
+CASES = ['upper', 'lower', 'capitalize']
+CLI_SWEEP = ([[]] + [['-r'], ['--reindent'], ['-a'], ['--reindent_aligned'], ['-s'], ['--use_space_around_operators'], ['--strip-comments'], ['-r', '--indent_columns'],
+                     ['-r', '--indent_after_first'], ['-r', '--strip-comments'], ['-a', '--strip-comments'], ['-s', '--strip-comments']]
+             + [[f, c] for f in ('-k', '--keywords', '-i', '--identifiers') for c in CASES]
+             + [[f, c] for f in ('-l', '--language') for c in ('python', 'php')]
+             + [['-r', '--indent_width', w] for w in ('1', '2', '3', '4', '8')] + [['--indent_width', '4'], ['-a', '--indent_width', '4']]
+             + [['-r', '--wrap_after', w] for w in ('0', '1', '10', '20', '80')] + [['--wrap_after', '10']]
+             + [['-r', '--comma_first', 'True'], ['--comma_first', 'True'], ['-r', '--compact', 'True'], ['--compact', 'True'], ['-a', '--comma_first', 'True']]
+             + [['-r', '-k', 'upper', '-i', 'lower', '-s', '--strip-comments', '--indent_width', '3', '--wrap_after', '15', '--comma_first', 'True', '-l', 'python']])
+LONG_FLAGS = {'--reindent': '-r', '--reindent_aligned': '-a', '--use_space_around_operators': '-s', '--keywords': '-k', '--identifiers': '-i', '--language': '-l'}
+CLI_RICH = ("select a,b, c  as x,  count(*)+1 -- first\nfrom t1 join t2 on t1.id=t2.id  /* blk */ left outer join t3 using (k)\n\n\nwhere a=1 and b in (1,2,3)  and c like 'x%'\n"
+            "group by a,b order by a desc;\n\n  insert into t (a,b) values (1,'é'), (2,  'z');\n"
+            "select case when a>1 then 'x' else 'y' end, f(a, b, c), (select max(q) from u where u.k=t.k) from t where x between 1 and 2 or not y;\n")
+CLI_NEWLINES = "select a, b\r\nfrom t -- c\r\nwhere x = 1;\rselect 2\r-- d\r; select '\r\n' , 3\n"
+
+
+def sweep_opts(flags):
+    return flags_to_opts([LONG_FLAGS.get(f, f) for f in flags])
+
+
+def cli_sweep(ctx, tmp):
+    """every entry of the option table on the feature-rich text (file -> stdout), every channel x the CR/CRLF text, and the options the parser has
+    but the table does not know (counted, not judged)"""
+    for i, flags in enumerate(CLI_SWEEP):
+        oracle_cli(ctx, tmp, CLI_RICH, ('utf-8', 'latin-1', 'utf-16')[i % 3], flags, False, False, opts=sweep_opts(flags))
+    for use_stdin in (False, True):
+        for use_outfile in (False, True):
+            for flags in ([], ['-r'], ['--strip-comments']):
+                oracle_cli(ctx, tmp, CLI_NEWLINES, 'utf-8' if use_stdin else 'latin-1', flags, use_stdin, use_outfile)
+                oracle_cli(ctx, tmp, CLI_RICH, 'utf-16' if use_stdin else 'gbk', flags, use_stdin, use_outfile)
+    # stdin must be decoded with --encoding, not with the interpreter's own stdin encoding: give the interpreter a different one (the output goes to a file)
+    oracle_cli(ctx, tmp, "select 'é€' from t -- ü\n", 'utf-8', ['-k', 'upper'], True, True, io_encoding='latin-1')
+    oracle_cli(ctx, tmp, "select 'é' from t -- ü\n", 'latin-1', [], True, True, io_encoding='utf-8')
+    oracle_cli(ctx, tmp, "select 'é' from t -- ü\n", 'cp437', ['-r'], False, True, io_encoding='ascii')
+    try:
+        from sqlparse import cli as _cli
+        known = set(FLAG_OPTS) | set(VAL_OPTS) | set(LONG_FLAGS) | {'-o', '--outfile', '--version', '--encoding', '-h', '--help'}
+        for a in _cli.create_parser()._actions:
+            for o in a.option_strings:
+                if o not in known:
+                    ctx.count('cli:option-not-in-table:' + o)
+    except Exception as e:
+        ctx.count('cli:parser-introspection-failed:' + type(e).__name__)
 
 
 def texts(ctx, n):
@@ -185,7 +342,15 @@ def run(ctx):
     rng = ctx.rng
     for s in texts(ctx, ctx.n(250, 4000)):
         oracle_forms(ctx, s)
+    for s in long_texts(ctx):
+        oracle_forms(ctx, s)
+        ctx.count('long_text')
+    for s in edge_texts():
+        oracle_parse_stream(ctx, s)
     # non-UTF-8 bytes
+    for b in near_utf8_bytes():
+        oracle_latin1(ctx, b)
+        ctx.count('near_utf8_bytes')
     lat = ["select 'é'", "select '\xe9\\n'", "\xe9 \\x", "select '\xfc' -- \\u00e9\n", "'\xe4\\\\'", "caf\xe9 \\t x", "\\N{DIGIT ONE}\xe9"]
     for s in lat:
         oracle_latin1(ctx, s.encode('latin-1'))
@@ -203,6 +368,7 @@ def run(ctx):
             if rng.random() < 0.25:
                 oracle_cli(ctx, tmp, s, enc, rng.choice(CLI_FLAGS), False, True, inplace=rng.choice(['same', 'symlink']))
         oracle_cli(ctx, tmp, "select 'é' from t where x=1; select 2", 'latin-1', ['-r', '-k', 'upper'], True, True)
+        cli_sweep(ctx, tmp)
         oracle_cli(ctx, tmp, "select 'é', b from t where x=1; select 2", 'utf-8', ['-r'], False, True, inplace='same')
         oracle_cli(ctx, tmp, "select a from t -- é\n; select 2", 'latin-1', ['-k', 'upper'], False, True, inplace='symlink')
     finally:
@@ -228,7 +394,7 @@ def replay(ctx, payload):
         try:
             ch = ex.get('channel', 'file->stdout')
             oracle_cli(ctx, tmp, payload['input'], ex['encoding'], ex['flags'], ch.startswith('stdin'), ch.endswith('outfile') or 'inplace' in ch,
-                       inplace=(ch.split('inplace:')[1] if 'inplace:' in ch else False))
+                       inplace=(ch.split('inplace:')[1] if 'inplace:' in ch else False), opts=sweep_opts(ex['flags']), io_encoding=ex.get('io_encoding'))
         finally:
             shutil.rmtree(tmp, ignore_errors=True)
     else:
